@@ -199,6 +199,101 @@ def limitOf (s : String) : Option Nat :=
 /-- policies that never answer `Retry` (same host): every request takes a fresh host from the shared iterator -/
 def nextHostOnly (s : String) : Bool := s == "none" || s.startsWith "simple:" || s.startsWith "exp:"
 
+/-! ### `specc`: speculative executions stepped one micro-step at a time, with cancellation at any point — the op
+    line is the observed history; it is replayed through `ExecutorConc.stepC` and every observation is compared with
+    what the machine does (theorems C13_cancel_stops_requests_partial, C13_caller_cancel_stops_requests,
+    C13_query_result_stops_requests, C13_first_result_wins, C13_result_iff_completed, C13_cancel_budget) -/
+
+structure CReplay where
+  c : ExecutorConc.MC
+  hostOf : List Nat            -- host (1-based position in the iterator's order) of each execution's last attempt
+  gotR : Bool := false
+  bad : Option String := none
+
+def showCRes : ExecutorConc.CRes → String
+  | .res .ok => "ok" | .res .logical => "l" | .res (.err k) => s!"e{k}" | .noConn => "noconn" | .unknownRT => "unknownrt"
+
+def parseCRes (s : String) : Option Res :=
+  if s == "ok" then some .ok else if s == "l" then some .logical else parseRes s
+
+/-- what the harness sees when execution `i` takes the step that leads from `c` to `c'` -/
+def stepSeen (nhosts : Nat) (c c' : ExecutorConc.MC) (i : Nat) (hostOf : List Nat) : String × Nat :=
+  match c'.m.exs[i]? with
+  | some .inflight =>
+      let h := if c'.m.left < c.m.left then nhosts - c.m.left + 1 else hostOf.getD i 0
+      (s!"s{h}", h)
+  | some .done =>
+      -- an attempt that reached no server was counted (and, taken from the iterator, has used up a host)
+      if c'.m.cnt > c.m.cnt then ("d", if c'.m.left < c.m.left then nhosts - c.m.left + 1 else hostOf.getD i 0)
+      else ("e", hostOf.getD i 0)
+  | _ => ("?", hostOf.getD i 0)
+
+def replayTok (pol : Option Policy) (derived : Bool) (nhosts e : Nat) (st : CReplay) (tok : String) : CReplay :=
+  if st.bad.isSome then st
+  else
+    let fail (why : String) : CReplay := { st with bad := some s!"{why}@{tok}" }
+    let c := st.c
+    match tok.splitOn ":" with
+    | ["X"] => { st with c := ExecutorConc.stepC pol derived c .callerCancel }
+    | ["R", res] =>
+        if st.gotR then fail "second-result"
+        else match c.result with
+          | none => fail "result-before-any-completion"
+          | some r =>
+            if showCRes r != res then fail s!"not-the-first-result:{showCRes r}"
+            else { st with c := ExecutorConc.stepC pol derived c .execCancel, gotR := true }
+    | [a, out] =>
+        let kind := a.toList.headD ' '
+        match (String.ofList (a.toList.drop 1)).toNat? with
+        | none => fail "bad-token"
+        | some i =>
+          if i ≥ e then fail "too-many-executions"
+          else if kind == 'L' || kind == 'D' then
+            let okState := match c.m.exs[i]?, kind with
+              | some .idle, 'L' => true
+              | some (.counted _), 'D' => true
+              | _, _ => false
+            if !okState then fail "step-not-enabled"
+            else
+              let c' := ExecutorConc.stepC pol derived c (.ex (if kind == 'L' then .launch i else .decide i))
+              let (want, h) := stepSeen nhosts c c' i st.hostOf
+              if want != out then
+                -- a request where the machine sends none, after the context of the attempts is done
+                if c.attDone derived && out.startsWith "s" then fail s!"request-after-cancellation:{want}"
+                else fail s!"expected:{want}"
+              else { st with c := c', hostOf := st.hostOf.set i h }
+          else if kind == 'C' || kind == 'c' then
+            match c.m.exs[i]?, parseCRes out with
+            | some .inflight, some r =>
+                if r == .logical && !c.attDone derived then fail "context-error-without-cancellation"
+                else { st with c := ExecutorConc.stepC pol derived c (.ex (.complete i r)) }
+            | _, _ => fail "completion-not-enabled"
+          else fail "bad-token"
+    | _ => fail "bad-token"
+
+def speccOp (kind idem pol a nh events nreq att obsInfo : String) : String :=
+  match parseKind kind, stmtIdempotent kind idem, parsePolicy pol, a.toNat?, nh.toNat?, nreq.toNat?, att.toNat? with
+  | some k, some idm, some p, some sa, some hosts, some n, some cntEnd =>
+    let e := maxExecutions idm sa
+    -- `Conn.executeQuery` runs the attempt under the executor's context, `Conn.executeBatch` under `batch.Context()`
+    let derived := k == .query
+    let toks := events.splitOn ","
+    let arrived := (toks.filterMap fun t => if t.startsWith "A" then (t.drop 1).toNat? else none).headD 0
+    let st0 : CReplay := { c := ExecutorConc.initC 0 hosts e, hostOf := List.replicate e 0 }
+    let st := (toks.filter fun t => !t.startsWith "A").foldl (replayTok p derived hosts e) st0
+    if arrived > e then s!"reject:too-many-executions:{arrived}"
+    else match st.bad with
+    | some why => s!"reject:{why}"
+    | none =>
+      let m := st.c.m
+      if !st.gotR then "reject:no-result"
+      else if !((List.range arrived).all fun i => m.exs[i]? == some .done) then "reject:execution-not-finished"
+      else if n != m.sent then s!"reject:requests:{n}!={m.sent}"
+      else if cntEnd != m.cnt then s!"reject:attempts:{cntEnd}!={m.cnt}"
+      else if obsInfo != (if m.cnt == 0 then "none" else s!"0-{m.cnt - 1}") then s!"reject:attempt-numbers:{obsInfo}"
+      else "accept"
+  | _, _, _, _, _, _, _ => "bad-op"
+
 def step (_ : Unit) (ws : List String) : Unit × String :=
   ((), match ws with
   | ["ex", kind, ctor, pol, polAt, obs, idem, sp, ctx, cons, _api, reps, hosts, outs] =>
@@ -244,6 +339,15 @@ def step (_ : Unit) (ws : List String) : Unit × String :=
             s!"reject:attempt-numbers:{obsInfo}"
           else "accept"
       | _, _, _, _, _, _, _ => "bad-op"
+  | ["specc", kind, idem, pol, a, nh, _ctx, events, nreq, att, obsInfo] =>
+      speccOp kind idem pol a nh events nreq att obsInfo
+  | ["kf-batch-loser"] =>
+      -- proposed finding KF-C13-2 (theorem C13_cex_batch_loser_not_cancelled): the executor's cancellation does not
+      -- reach a batch's attempts
+      let c := ExecutorConc.runC (some (simplePolicy 2)) false (ExecutorConc.initC 0 3 2)
+        [.ex (.launch 0), .ex (.launch 1), .ex (.complete 0 .ok), .ex (.decide 0), .execCancel]
+      let c' := ExecutorConc.runC (some (simplePolicy 2)) false c [.ex (.complete 1 (.err 9)), .ex (.decide 1)]
+      s!"sent-after-result={c'.m.sent - c.m.sent}"
   | ["kf-d10"] =>
       -- known finding KF-C13-1: the attempts do not depend on idempotence
       let out := doQuery ⟨.query, false⟩ (some (simplePolicy 1)) (fun _ => .err 9) (fun _ _ => true) 10 [1, 2] 0 0 1
